@@ -81,9 +81,45 @@ class Middlebox:
         lines.append(f'Content-Length: {len(msg.raw_body)}')
         return ('\r\n'.join(lines) + '\r\n\r\n').encode('latin-1') + msg.raw_body
 
+    def _try_merge(self, a, b):
+        """one message that carries the report parts of captured messages a and b (same report type), or None"""
+        from lxml import etree
+        try:
+            ma, mb_ = httpmsg.parse_message(self.captured[a], True), httpmsg.parse_message(self.captured[b], True)
+            xa, xb = etree.fromstring(httpmsg.decode_body(ma)), etree.fromstring(httpmsg.decode_body(mb_))
+            ba = xa.find('{http://www.w3.org/2003/05/soap-envelope}Body')[0]
+            bb = xb.find('{http://www.w3.org/2003/05/soap-envelope}Body')[0]
+            if ba.tag != bb.tag or not ba.tag.endswith('OperationInvokedReport'):
+                return None
+            for i, part in enumerate(list(ba)):
+                bb.insert(i, part)  # the parts of the earlier message first
+            body = etree.tostring(xb, xml_declaration=True, encoding='UTF-8')
+            lines = [mb_.start] + [f'{k}: {v}' for k, v in mb_.headers
+                                   if k.lower() not in ('content-length', 'transfer-encoding', 'content-encoding')]
+            lines.append(f'Content-Length: {len(body)}')
+            return ('\r\n'.join(lines) + '\r\n\r\n').encode('latin-1') + body
+        except Exception:  # noqa: BLE001
+            return None
+
     def _apply_fate(self, n):
         fate = self.fates.get(n) if self.active else None
         kind = fate[0] if fate else 'deliver'
+        pending = getattr(self, 'merge_pending', None)
+        if pending is not None:
+            # the previous message waits to be combined with this one (a report may carry several report parts)
+            self.merge_pending = None
+            merged = self._try_merge(pending, n)
+            if merged is not None:
+                self.count('merge')
+                self.captured.append(merged)
+                self.meta.append((len(self.captured) - 1, S.SCHED.now))
+                self._forward(len(self.captured) - 1)
+                self._release_due()
+                return
+            self._forward(pending)
+        if kind == 'merge':
+            self.merge_pending = n
+            return
         if kind == 'drop':
             self.dropped.append(n)
             self.count('drop')
@@ -119,6 +155,9 @@ class Middlebox:
         """faults stop: deliver everything still held, in capture order"""
         with self.lock:
             self.active = False
+            if getattr(self, 'merge_pending', None) is not None:
+                self._forward(self.merge_pending)
+                self.merge_pending = None
             for item in sorted(self.held, key=lambda x: x[1]):
                 self._forward(item[1])
             self.held = []
